@@ -258,6 +258,11 @@ pub fn minimize(case: &Case, finding: &Finding, budget: usize) -> (Case, Finding
         let mut c = m.best.clone();
         c.extra_args.clear();
         m.attempt(c);
+        if !m.best.bogus_paths.is_empty() {
+            let mut c = m.best.clone();
+            c.bogus_paths.clear();
+            m.attempt(c);
+        }
         if m.best.list_via_pipe {
             let mut c = m.best.clone();
             c.list_via_pipe = false;
